@@ -1,6 +1,38 @@
--- shard 27 of the closeness / tick-gap sweep (C06 (c), (e)): |tick| in [884736, 917504)
+-- shard 27 of the closeness / tick-gap sweep (C06 (c), (e)): |tick| in [884736, 917504), 16 blocks of 2^11
 import Proofs.Lemmas.ClosePred
 namespace Demeter.TickClose
 set_option maxRecDepth 100000 in
-theorem close_shard_27 : chkN closeSweepPred 884736 shardBits = true := by decide +kernel
+theorem close_blk_884736 : chkN closeSweepPred 884736 11 = true := by decide +kernel
+set_option maxRecDepth 100000 in
+theorem close_blk_886784 : chkN closeSweepPred 886784 11 = true := by decide +kernel
+set_option maxRecDepth 100000 in
+theorem close_blk_888832 : chkN closeSweepPred 888832 11 = true := by decide +kernel
+set_option maxRecDepth 100000 in
+theorem close_blk_890880 : chkN closeSweepPred 890880 11 = true := by decide +kernel
+set_option maxRecDepth 100000 in
+theorem close_blk_892928 : chkN closeSweepPred 892928 11 = true := by decide +kernel
+set_option maxRecDepth 100000 in
+theorem close_blk_894976 : chkN closeSweepPred 894976 11 = true := by decide +kernel
+set_option maxRecDepth 100000 in
+theorem close_blk_897024 : chkN closeSweepPred 897024 11 = true := by decide +kernel
+set_option maxRecDepth 100000 in
+theorem close_blk_899072 : chkN closeSweepPred 899072 11 = true := by decide +kernel
+set_option maxRecDepth 100000 in
+theorem close_blk_901120 : chkN closeSweepPred 901120 11 = true := by decide +kernel
+set_option maxRecDepth 100000 in
+theorem close_blk_903168 : chkN closeSweepPred 903168 11 = true := by decide +kernel
+set_option maxRecDepth 100000 in
+theorem close_blk_905216 : chkN closeSweepPred 905216 11 = true := by decide +kernel
+set_option maxRecDepth 100000 in
+theorem close_blk_907264 : chkN closeSweepPred 907264 11 = true := by decide +kernel
+set_option maxRecDepth 100000 in
+theorem close_blk_909312 : chkN closeSweepPred 909312 11 = true := by decide +kernel
+set_option maxRecDepth 100000 in
+theorem close_blk_911360 : chkN closeSweepPred 911360 11 = true := by decide +kernel
+set_option maxRecDepth 100000 in
+theorem close_blk_913408 : chkN closeSweepPred 913408 11 = true := by decide +kernel
+set_option maxRecDepth 100000 in
+theorem close_blk_915456 : chkN closeSweepPred 915456 11 = true := by decide +kernel
+theorem close_shard_27 : chkN closeSweepPred 884736 shardBits = true :=
+  (chkN_join _ 884736 14 (chkN_join _ 884736 13 (chkN_join _ 884736 12 (chkN_join _ 884736 11 close_blk_884736 close_blk_886784) (chkN_join _ 888832 11 close_blk_888832 close_blk_890880)) (chkN_join _ 892928 12 (chkN_join _ 892928 11 close_blk_892928 close_blk_894976) (chkN_join _ 897024 11 close_blk_897024 close_blk_899072))) (chkN_join _ 901120 13 (chkN_join _ 901120 12 (chkN_join _ 901120 11 close_blk_901120 close_blk_903168) (chkN_join _ 905216 11 close_blk_905216 close_blk_907264)) (chkN_join _ 909312 12 (chkN_join _ 909312 11 close_blk_909312 close_blk_911360) (chkN_join _ 913408 11 close_blk_913408 close_blk_915456))))
 end Demeter.TickClose
